@@ -1,6 +1,6 @@
 """Per-property configuration of the checks (parts, bounds, non-triviality rules, evidence text)."""
 
-HARNESS_SOURCES = ["main.cc", "engine_poly.cc", "engine_tet.cc", "engine_hex.cc", "mon_hist.cc", "mon_c12.cc", "mon_iter.cc", "mon_query.cc", "mon_c13.cc", "mon_c14.cc", "mon_c15.cc", "mon_c16.cc", "mon_c19.cc", "mon_c20.cc", "mon_c06.cc"]
+HARNESS_SOURCES = ["main.cc", "engine_poly.cc", "engine_tet.cc", "engine_hex.cc", "mon_hist.cc", "mon_c12.cc", "mon_iter.cc", "mon_query.cc", "mon_c13.cc", "mon_c14.cc", "mon_c15.cc", "mon_c16.cc", "mon_c19.cc", "mon_c20.cc", "mon_c06.cc", "mon_io2.cc"]
 
 def cnt(js, k):
     return js.get("cnt", {}).get(k, 0)
@@ -95,6 +95,18 @@ PROPS = {
   "floor": {"quick": 150, "thorough": 3000},
   "min_counts": {"ovmb.variants": 500, "ovmb.reads": 500, "ascii.reads": 300, "pending.files": 10},
   "assumptions": COMMON_ASSUME + ["PROP payload encodings are not part of the ksy: the reference decoder assumes little-endian fixed-size elements, LSB-first bit packing for bool and u32-length-prefixed strings", "ASCII values of char type are restricted to printable non-space characters; strings to printable characters"],
+ },
+ "C07": {
+  "level": "exploration",
+  "technique": "structured mutation of valid OVMB / OVM-ASCII files (numeric fields := boundary values, payload vs declared length, chunk/line drop/duplicate/splice, byte edits) read under ASan+UBSan+range-checked vectors with a capped operator new; validity walk on every success; driver watchdog for termination",
+  "parts": [
+    {"name": "rel", "flavor": "asan-rel", "monitor": "C07", "cases": {"quick": 200, "thorough": 6000}, "case_timeout": 600},
+  ],
+  "nontrivial": {"fn": lambda js: cnt(js, "c07.inputs") >= 50 and (cnt(js, "c07.ovmb.rejected") + cnt(js, "c07.ascii.rejected")) >= 5,
+                 "text": "case = one generated valid file (OVMB and ASCII alternate; poly/tet/hex; persistent properties of random codecs) and 100 inputs derived from it: the file itself, empty input, random bytes, two files concatenated, then 1-3 stacked mutations each - OVMB: every numeric field of file header / chunk header / VERT, TOPO, PROP sub-headers / DIRP bytes / payload words replaced by one of 22 boundary values (0,1,..,255,256,65535,65536,2^31-1,2^31,2^32-1,2^32,2^63-1,2^63,2^64-1) or a small number; payload shortened/extended against its declared length; length fields adjusted; chunks dropped, duplicated, spliced from another file; bit flips, inserts, deletes, truncation. ASCII: lines/tokens dropped, repeated, replaced by non-numeric text, negative numbers, huge counts, section names, property headers of other kinds/types. Each input is read with random topology_check / incidence options into a random mesh type. Any sanitizer report, libstdc++ assertion, abort, non-standard exception or watchdog timeout is a violation; on success every stored handle must designate an existing entity and every tracked property must have one element per entity (+cache shape when incidences were requested). non-trivial = >=50 inputs with >=5 rejections; distinct by operation digest"},
+  "floor": {"quick": 100, "thorough": 3000},
+  "min_counts": {"c07.inputs.ovmb": 8000, "c07.inputs.ascii": 8000, "validity-walks": 2000, "c07.ovmb.rejected": 3000, "c07.ascii.rejected": 1000},
+  "assumptions": COMMON_ASSUME + ["allocation requests above 256 MiB throw std::bad_alloc (harness operator new), which the statement allows as a way of reporting failure", "counts between 70 000 and 2^31 in ASCII files are not generated (they only make the run long)"],
  },
  "C08": {
   "level": "exploration",
@@ -210,6 +222,18 @@ PROPS = {
   "min_counts": {"hex.cells-checked": 20000, "hex.csc.nonempty": 5000, "hex.hfshf.nonempty": 5000, "hex.permutations.accepted": 2000, "hex.on_sheet.interior": 5000, "op.add_cell(8 vertices)": 300},
   "assumptions": COMMON_ASSUME + ["all cells of these meshes are created from eight vertices, with topology check, or from lists already in XF,XB,YF,YB,ZF,ZB order (the layout claim does not extend to unchecked lists in another order)"],
  },
+ "C18": {
+  "level": "fault_enumeration",
+  "technique": "per generated file: EVERY truncation length, boundary-value substitution of every header / sub-header byte (judged when an independent decoder of the format description rejects the result), every chunk dropped / duplicated / pair swapped, input stream failing at every byte (short read and throwing), output stream failing after every byte count",
+  "parts": [
+    {"name": "rel", "flavor": "asan-rel", "monitor": "C18", "cases": {"quick": 60, "thorough": 1500}, "case_timeout": 900},
+  ],
+  "nontrivial": {"fn": lambda js: cnt(js, "c18.truncations") >= 48 and cnt(js, "c18.faults") >= 200,
+                 "text": "case = one valid OVMB file produced by the writer from a generated poly/tet/hex mesh with 1-4 persistent properties (few hundred bytes to a few KiB). Faults enumerated per file: (a) all prefixes 0..size-1; (b) every byte of the file header, of every chunk header, of the VERT/TOPO/PROP sub-headers, the first DIRP bytes, all padding bytes and some payload bytes replaced by 15 boundary values (quick: 260 sampled positions; thorough: all) - a mutant is judged only if the independent ksy-based decoder rejects it (i.e. it is inconsistent by the published description); (c) every chunk dropped, every chunk duplicated, every pair of chunks swapped, an unknown mandatory chunk spliced in; (d) the input stream stops delivering at byte k (short read / exception) for every k (quick: ~150 positions per file); (e) the output stream accepts only k bytes for every k. Every judged fault must yield a result other than Ok. non-trivial = >=48 truncations and >=200 judged faults in the case; distinct by file digest"},
+  "floor": {"quick": 30, "thorough": 800},
+  "min_counts": {"c18.truncations": 20000, "c18.substitutions": 50000, "c18.chunk-edits": 1000, "c18.read-faults": 5000, "c18.write-faults": 3000},
+  "assumptions": COMMON_ASSUME + ["a mutated file is called inconsistent only when the reference decoder (harness/ovmb_ref.hh, from ovmb.ksy + documentation) rejects it; compression and file_version bytes are not judged"],
+ },
  "C19": {
   "level": "exploration",
   "technique": "independent scalar re-computation (long double) of every VectorT operation over integer lattices (all ordered pairs) and sampled/special floating-point values under UBSan; geometric queries vs formulas on generated meshes",
@@ -266,6 +290,8 @@ LEVEL_TEXT = {
          "note": "trusted: Scan; iterator copies compare with operator== of the library (also cross-checked by handle+lap)"},
  "C06": {"text": "Runtime exploration with an independent implementation of the format: thousands of generated meshes with properties of every registered type are written, decoded independently, re-encoded in every permitted variant and read back; equality is bit-exact on a canonical form.",
          "note": "trusted: the reference decoder/encoder (cross-checked against each other on every variant); Canon extraction through cast_to_StorageT"},
+ "C07": {"text": "Runtime exploration (structured fuzzing without coverage feedback in the quick tier): hundreds of thousands of hostile inputs per format under ASan/UBSan with range-checked containers; a success is cross-examined by a validity walk.",
+         "note": "trusted: sanitizers + _GLIBCXX_ASSERTIONS to surface out-of-range accesses; the watchdog (600 s per case) for termination"},
  "C08": {"text": "Conversion identities: quick samples ranges, thorough enumerates every index in [0,2^30) (complete for that sub-space) under UBSan; mirror identities are explored on every edge/face of thousands of reached states.",
          "note": "trusted: UBSan for the arithmetic; Scan for the stored definitions"},
  "C09": {"text": "Runtime exploration: the fan structure around every edge is recomputed by brute force after every step and the reported order is checked against the successor relation; adjacency in cells against the unique-candidate scan.",
@@ -284,6 +310,8 @@ LEVEL_TEXT = {
          "note": "trusted: the brute-force link condition and cell tuple computation"},
  "C16": {"text": "Runtime exploration: the layout and navigation contracts are recomputed from vertex sets for every live hexahedron of the reached states; permutations of valid halfface lists probe the re-ordering code (all 720 in the thorough tier).",
          "note": "trusted: Scan and the vertex-set based neighbour computation"},
+ "C18": {"text": "Fault enumeration: for every generated file every truncation point, every header byte position x boundary value, every chunk-level edit and every stream failure position is tried (thorough: complete per file); the result must never be Ok for an inconsistent file.",
+         "note": "trusted: the reference decoder as the definition of 'inconsistent'; FaultyInBuf/FaultyOutBuf as models of failing streams"},
  "C19": {"text": "Integer vector algebra is enumerated completely over small lattices (all ordered pairs; thorough tier all dims) and sampled for floating point with special values; geometry queries are re-computed from positions on generated meshes.",
          "note": "trusted: long double reference arithmetic; tolerances as stated"},
  "C20": {"text": "Race detection on real concurrent executions: ThreadSanitizer observes overlapping reader threads running every const query kind; determinism is checked per query against a single-threaded reference. Schedules are sampled, not enumerated.",
